@@ -650,7 +650,20 @@ class TaskPool:
             # Any task can have completed outputs, e.g. a waiting task that
             # is between automatic retries, or has had outputs set manually.
             if outputs_str:
-                for message in json.loads(outputs_str):
+                outputs = json.loads(outputs_str)
+                if isinstance(outputs, dict):
+                    # {trigger: message} - match triggers, not messages
+                    # (a custom output's message differs from its trigger).
+                    trg_to_msg = {
+                        trigger: message
+                        for trigger, message, _ in itask.state.outputs
+                    }
+                    outputs = [
+                        trg_to_msg[trigger]
+                        for trigger in outputs
+                        if trigger in trg_to_msg
+                    ]
+                for message in outputs:
                     itask.state.outputs.set_message_complete(message)
                     self.data_store_mgr.delta_task_output(itask, message)
 
